@@ -469,6 +469,12 @@ class Unit:
         if self.dimensions is logarithmic and p != 1:
             raise InvalidUnitOperation(f"Tried to raise '{self}' to power '{p}'")
 
+        if self.base_offset and p != 1:
+            raise InvalidUnitOperation(
+                "Quantities with units of Fahrenheit or Celsius (or other units "
+                f"with a zero-point offset) cannot be raised to a power, got '{self}**{p}'"
+            )
+
         return Unit(
             self.expr**p,
             base_value=(self.base_value**p),
